@@ -346,6 +346,107 @@ fn histories(run: &Run, acc: &mut Acc, doc: &Value, depth: usize) {
     }
 }
 
+/// operation sequences: `reference` / `reference_mut` are pure look-ups, so the result of a call must not depend
+/// on the calls made before it - in particular not on calls with paths the functions do not support
+/// (wildcards, slices, negative indices, descendants, filters, syntax errors), which must simply yield None
+fn sequences(run: &Run, acc: &mut Acc, doc: &Value, depth: usize) {
+    let mut locs = vec![];
+    all_locs(doc, &mut vec![], &mut locs);
+    let addr_locs: Vec<(usize, Loc)> = locs.iter().map(|l| (addr(resolve(doc, l).unwrap()), l.clone())).collect();
+    // operation alphabet: (path, expected location)
+    let mut ops: Vec<(String, Option<Loc>)> = vec![];
+    for l in locs.iter().take(6) {
+        ops.push((normpath(l), Some(l.clone())));
+    }
+    let junk_tails = ["[*]", "[-1]", "[0:1]", "..['a']", "[?@]", "[0,1]", ".*", "['zz']", "[99]", "["];
+    for l in locs.iter().take(4) {
+        let p = normpath(l);
+        for t in junk_tails {
+            ops.push((format!("{}{}", p, t), None));
+        }
+    }
+    ops.push(("".to_string(), None));
+    ops.push(("@".to_string(), None));
+    // expected results under the licensed name-lookup finding are taken from the solo call
+    let solo: Vec<Result<Option<Option<Loc>>, String>> = ops.iter().map(|(p, _)| observe_ref(doc, p, &addr_locs)).collect();
+    for (i, (p, exp)) in ops.iter().enumerate() {
+        acc.evals += 1;
+        let want = exp.clone().map(Some);
+        if solo[i] != Ok(want.clone()) {
+            let flat = match &solo[i] {
+                Ok(Some(Some(l))) => Some(l.clone()),
+                _ => None,
+            };
+            if matches!(solo[i], Ok(Some(None))) || solo[i].is_err() || !known_name_escape(run, acc, doc, p, &flat, "reference") {
+                acc.viol(
+                    format!("reference({}) on {}: expected {:?}, got {:?}", p, doc, exp.as_ref().map(normpath), solo[i]),
+                    json!({"kind": "ref-seq", "class": "reference (single call)", "doc": doc, "paths": [p]}),
+                );
+            }
+        }
+    }
+    // every sequence of length 2 (and 3 when depth allows): the last call must give its solo result
+    let n = ops.len();
+    let mut check_seq = |acc: &mut Acc, seq: &[usize], mutating: bool| {
+        acc.evals += 1;
+        acc.transitions += seq.len() as u64;
+        let last = *seq.last().unwrap();
+        let mut d2;
+        let target: &Value = if mutating {
+            // earlier calls go through reference_mut (without writing); the document stays equal, addresses change
+            d2 = doc.clone();
+            for i in &seq[..seq.len() - 1] {
+                let _ = catch_unwind(AssertUnwindSafe(|| d2.reference_mut(ops[*i].0.clone()).is_some()));
+            }
+            &d2
+        } else {
+            for i in &seq[..seq.len() - 1] {
+                let _ = catch_unwind(AssertUnwindSafe(|| doc.reference(ops[*i].0.clone()).is_some()));
+            }
+            doc
+        };
+        let got = if mutating {
+            let mut l2 = vec![];
+            all_locs(target, &mut vec![], &mut l2);
+            let al: Vec<(usize, Loc)> = l2.iter().map(|l| (addr(resolve(target, l).unwrap()), l.clone())).collect();
+            observe_ref(target, &ops[last].0, &al)
+        } else {
+            observe_ref(target, &ops[last].0, &addr_locs)
+        };
+        if got != solo[last] {
+            acc.viol(
+                format!(
+                    "on {}: after the calls {:?}, reference({}) returns {:?}; called alone it returns {:?}",
+                    doc,
+                    seq[..seq.len() - 1].iter().map(|i| format!("{}({})", if mutating { "reference_mut" } else { "reference" }, ops[*i].0)).collect::<Vec<_>>(),
+                    ops[last].0,
+                    got.as_ref().map(|o| o.as_ref().map(|l| l.as_ref().map(normpath))),
+                    solo[last].as_ref().map(|o| o.as_ref().map(|l| l.as_ref().map(normpath)))
+                ),
+                json!({"kind": "ref-seq", "class": "reference after a history of calls", "doc": doc, "paths": seq.iter().map(|i| ops[*i].0.clone()).collect::<Vec<_>>(), "mutating": mutating}),
+            );
+        } else {
+            acc.nontrivial += 1;
+        }
+    };
+    for a in 0..n {
+        for b in 0..n.min(10) {
+            check_seq(acc, &[a, b], false);
+            check_seq(acc, &[a, b], true);
+        }
+    }
+    if depth >= 3 {
+        for a in 0..n {
+            for b in 0..n {
+                for c in 0..n.min(6) {
+                    check_seq(acc, &[a, b, c], false);
+                }
+            }
+        }
+    }
+    acc.states += n as u64;
+}
+
 pub fn run(tier: &str) -> i32 {
     let run = Run::new("C09", tier);
     let th = run.thorough();
@@ -385,9 +486,22 @@ pub fn run(tier: &str) -> i32 {
             acc
         })
         .reduce(Acc::new, Acc::merge);
+    let mut seq_docs = docs::universe(1, 2, &[json!(1), json!("a")], &["b", "a"]);
+    seq_docs.extend(docs::panel().into_iter().filter(|d| ser(d).len() < 120));
+    seq_docs.extend([json!({"a": {"b": 1, "c": [1, 2]}, "b": 2}), json!([[1, 2], {"a": [3]}]), json!({"a": {"a": {"a": 1}}})]);
+    let c = seq_docs
+        .par_iter()
+        .map(|d| {
+            let mut acc = Acc::new();
+            sequences(&run, &mut acc, d, if th { 3 } else { 2 });
+            acc.bump("documents_with_call_sequences", 1);
+            acc
+        })
+        .reduce(Acc::new, Acc::merge);
+    let b = b.merge(c);
     run.finish(
         a.merge(b),
-        "node sweep: one case = (document, node location, operation) with operation in {reference, reference_mut + one of 5 written values} plus, per node, locations that do not exist (absent name, index = len, index into an object, name into an array, '0' vs 0); update histories: breadth-first search over the documents reached by sequences of writes through the paths of one initial `$..*` query (states = distinct documents, transitions = writes, each executed on the implementation and on the reference model); non-trivial = operations on existing locations",
+        "node sweep: one case = (document, node location, operation) with operation in {reference, reference_mut + one of 5 written values} plus, per node, locations that do not exist (absent name, index = len, index into an object, name into an array, '0' vs 0); update histories: breadth-first search over the documents reached by sequences of writes through the paths of one initial `$..*` query (states = distinct documents, transitions = writes, each executed on the implementation and on the reference model); call sequences: every sequence of two (thorough: three) look-ups over an alphabet of existing paths and of paths the functions do not support (wildcard, slice, negative index, descendant, filter, syntax error), the last call compared with the same call made alone; non-trivial = operations on existing locations / sequences executed",
         &["normalized paths are computed by the harness (RFC 9535 2.7) from node locations", "documents are compared as serialized text, i.e. including member order"],
         true,
         json!({"history_depth": depth}),
@@ -406,6 +520,11 @@ pub fn replay(case: &Value, run: &Run) -> Acc {
             let p = case["path"].as_str().unwrap_or("").to_string();
             acc.viols.retain(|v| v.case["path"].as_str() == Some(&p));
             acc.viol_count = acc.viols.len() as u64;
+        }
+        "ref-seq" => {
+            println!("document : {}", case["doc"]);
+            println!("calls    : {}", case["paths"]);
+            sequences(run, &mut acc, &case["doc"], 3);
         }
         _ => {
             let initial = &case["initial"];
